@@ -565,7 +565,7 @@ struct Run {
 void execute_output(const Plan &plan, Verdict &v, bool c17) {
     WorldCfg cfg;
     cfg.queue = (int) clampl(plan.k("queue", 8), 1, 16);
-    cfg.inbuf = (int) clampl(plan.k("inbuf", 256), 64, 600);
+    cfg.inbuf = (int) clampl(plan.k("inbuf", 256), 64, 4000);
     cfg.wr_mode = (int) (plan.k("wr_mode", 0) & 3);
     cfg.flush_err = (int) (plan.k("flush_err", 0) & 1);
     cfg.with_flush = plan.k("no_flush_cb", 0) == 0;   // a transport without a flush callback: the bytes must be the same, no flush can be seen
@@ -763,7 +763,7 @@ void execute_output(const Plan &plan, Verdict &v, bool c17) {
 
 // ---------------------------------------------------------------- generation
 std::string rand_text(Rng &r, long maxlen) {
-    static const char a[] = "abcXYZ019 ,;\"'#:_-";
+    static const char a[] = "abcXYZ019 ,;\"'#:_-\xA2\xC3\xB0\xBB";   // incl. bytes >= 0x80 whose low seven bits are '"', 'C', '0', ';'
     std::string s;
     long n = r.range(0, maxlen);
     for (long i = 0; i < n; i++) s += a[r.below(sizeof a - 1)];
@@ -928,6 +928,11 @@ void generate_output(Rng &r, const GenOpts &g, Plan &p, bool c17) {
         }
         std::string msg;
         long nu = r.chance(1, 3) ? 1 : r.range(2, 6);
+        if (!c17 && r.chance(1, 1500)) {
+            // a scan list sent as one message: hundreds of units
+            nu = r.chance(1, 2) ? r.range(120, 135) : r.range(100, 300);
+            p.knob["inbuf"] = 4000;
+        }
         for (long u = 0; u < nu; u++) {
             if (u) msg += ";";
             long sel = (long) r.below(20);
